@@ -26,3 +26,43 @@ pub fn vextend_used(ids: &mut VIdMap, content: &Option<Vec<DataIdU>>, tpe: BlobT
             || (k.0 == tpe && exists|i: int| 0 <= i < content_ids_of(*content).len() && (#[trigger] content_ids_of(*content)[i]).v == k.1),
 { unimplemented!() }
 pub open spec fn content_ids_of(c: Option<Vec<DataIdU>>) -> Seq<DataIdU> { match c { Some(v) => v@, None => Seq::empty() } }
+
+// ---- PackInfo::from_pack: outstanding-copy counts of the needed blobs (typed keys) ----
+impl VCountMap {
+    // `used_ids.get_mut(&k)` is translated to read (vget) / write back (vset): the entry API of BTreeMap (ASSUMED)
+    #[verifier::external_body]
+    pub fn vget(&self, k: &(BlobType, BlobId)) -> (r: Option<u8>)
+        ensures r == (if self@.dom().contains((k.0, k.1._opaque)) { Some(self@[(k.0, k.1._opaque)]) } else { None::<u8> }),
+    { unimplemented!() }
+    #[verifier::external_body]
+    pub fn vset(&mut self, k: &(BlobType, BlobId), v: u8)
+        requires old(self)@.dom().contains((k.0, k.1._opaque)),
+        ensures final(self)@ == old(self)@.insert((k.0, k.1._opaque), v),
+    { unimplemented!() }
+}
+// sum of the blob lengths of blobs[lo..hi)
+pub open spec fn lens(b: Seq<IndexBlob>, lo: int, hi: int) -> int
+    decreases hi - lo
+{
+    if lo >= hi { 0 } else { b[lo].location.length as int + lens(b, lo + 1, hi) }
+}
+pub proof fn lemma_lens_push(b: Seq<IndexBlob>, lo: int, hi: int)
+    requires 0 <= lo <= hi < b.len(),
+    ensures lens(b, lo, hi + 1) == lens(b, lo, hi) + b[hi].location.length,
+    decreases hi - lo
+{
+    if lo < hi { lemma_lens_push(b, lo + 1, hi); } else { assert(lens(b, lo + 1, hi + 1) == 0); }
+}
+pub proof fn lemma_lens_mono(b: Seq<IndexBlob>, lo: int, mid: int, hi: int)
+    requires 0 <= lo <= mid <= hi <= b.len(),
+    ensures lens(b, lo, hi) == lens(b, lo, mid) + lens(b, mid, hi), lens(b, lo, mid) >= 0, lens(b, mid, hi) >= 0,
+    decreases hi - lo
+{
+    if lo < mid { lemma_lens_mono(b, lo + 1, mid, hi); }
+    else if mid < hi { lemma_lens_mono(b, lo + 1, mid + 1, hi); }
+}
+pub open spec fn bkey(b: IndexBlob) -> (BlobType, u64) { (b.tpe, b.id._opaque) }
+// outstanding copies of key k (0 when the blob is not needed at all)
+pub open spec fn outstanding(m: Map<(BlobType, u64), u8>, k: (BlobType, u64)) -> int { if m.dom().contains(k) { m[k] as int } else { 0 } }
+// u8::saturating_add
+pub fn vsat_add(c: u8, n: u8) -> (r: u8) ensures r == (if c as int + n as int > 255 { 255u8 } else { (c + n) as u8 }), { if c > 255 - n { 255 } else { c + n } }
